@@ -9,10 +9,14 @@
 (* from the invariant `Emit` at terminal states.                           *)
 (***************************************************************************)
 EXTENDS Failover, Json, TLC
-CONSTANTS NEp, MaxConc
+CONSTANTS NEp, MaxConc,
+          Lats     \* latency classes of an endpoint's answer relative to the call's timeout
+                   \* ("fast", "below", "at", "above"); the statement has no clause about time:
+                   \* the expected behaviour does not depend on them
 VARIABLE hist
 
-Ev(name, c, e, r) == [name |-> name, c |-> c, e |-> e, r |-> r]
+Ev(name, c, e, r) == [name |-> name, c |-> c, e |-> e, r |-> r, lat |-> ""]
+EvL(name, c, e, r, lt) == [name |-> name, c |-> c, e |-> e, r |-> r, lat |-> lt]
 
 Quiesce == \E c \in Calls : pc[c] \in {"load", "store", "ret"}
 
@@ -27,8 +31,9 @@ GenNext ==
             \/ /\ Cardinality(Running) < MaxConc
                /\ \A d \in Calls : d < c => pc[d] # "idle"      \* calls start in id order
                /\ Start(c) /\ hist' = Append(hist, Ev("start", c, 0, ""))
-            \/ \E r \in Kinds : Attempt(c, r) /\ hist' = Append(hist, Ev("att", c, snap[c][idx[c]], r))
+            \/ \E r \in Kinds, lt \in Lats :
+                    Attempt(c, r) /\ hist' = Append(hist, EvL("att", c, snap[c][idx[c]], r, lt))
 
 Done == \A c \in Calls : pc[c] = "done"
-Emit == Done => PrintT(ToJson([n |-> n, conc |-> MaxConc, hist |-> hist]))
+Emit == Done => PrintT(ToJson([n |-> n, conc |-> MaxConc, timed |-> (Lats # {"fast"}), hist |-> hist]))
 =============================================================================
